@@ -250,7 +250,7 @@ class ElectrumV2Standard(ElectrumV2Base):
             Bip32KeyError: If the derivation results in an invalid key
             Bip32PathError: If the path indexes are not valid
         """
-        return self.m_bip32_obj.DerivePath(f"m/{change_idx}/{addr_idx}")
+        return self.m_bip32_obj.DerivePath(f"m/{int(change_idx)}/{int(addr_idx)}")
 
 
 class ElectrumV2Segwit(ElectrumV2Base):
@@ -353,4 +353,4 @@ class ElectrumV2Segwit(ElectrumV2Base):
             Bip32KeyError: If the derivation results in an invalid key
             Bip32PathError: If the path indexes are not valid
         """
-        return self.m_bip32_acc.DerivePath(f"{change_idx}/{addr_idx}")
+        return self.m_bip32_acc.DerivePath(f"{int(change_idx)}/{int(addr_idx)}")
